@@ -9,6 +9,7 @@ import (
 func init() {
 	vHarnesses["C04_step"] = H_C04_step
 	vHarnesses["C04_perm"] = H_C04_perm
+	vHarnesses["C04_late"] = H_C04_late
 }
 
 // H_C04_step (inductive step): arbitrary assigned range [a,b], arbitrary
